@@ -389,7 +389,7 @@ EXPECT = ["C06.positive_variance_gets_samples", "C06.sizes_are_rounded_up", "C06
 
 
 def main(tier):
-    bounds = {"histories_and_variants": 'bias test with 1, 2 and 3 level means',
+    bounds = {"histories_and_variants": 'bias test with 1, 2 and 3 level means; loop with levels of 100 samples and answers 100 + [0, 2] (2 passes)',
               "allocation": "variance/cost vectors of length <= 2 (quick) / 3 (thorough), all non-negative reals incl. zeros, all rmse > 0",
               "loop": "as C05: initial_level <= 1/2, level_max <= initial+1/+2; quick: answers in [0,2] (two levels) / [0,1] (three levels), 4 passes; thorough: per configuration "
                       "(answers bound, passes) from ([0,3], 4) on one or two levels down to ([0,1], 4) / ([0,2], 3) / ([0,3], 2) on three and four levels",
